@@ -130,8 +130,27 @@ class C01(Cfg):
         res = []
         defs = {}                                   # room index -> RoomDef
         prev = ("", {}, set(), set(), set())
+        stored_last = {}                            # room -> (stored definition as last observed, line)
+        changed_by = {}                             # room -> lines of the accepted operations ON that room since then
         for i, (op, out) in enumerate(zip(ops, outs)):
             k, a = kv(op)
+            if k == "rstored":
+                # (b)/(c) the STORED definition of a room (room row, admin entries, groups and their entries, with the
+                # keys that signed them) differs between two observations only if a mutation OF THAT ROOM was accepted in
+                # between (whose caller is judged above); any other operation - a mutation of another room, a data
+                # operation - must leave it as it is
+                r = a.get("r")
+                if out not in ("none", "bad-op"):
+                    if r in stored_last and stored_last[r][0] != out and not changed_by.get(r):
+                        j = stored_last[r][1]
+                        between = [ops[x] for x in range(j + 1, i) if not ops[x].startswith(("rstored", "robs"))]
+                        res.append(("foreign-room-definition-changed",
+                                    "line %d: the stored definition of room %s changed although no mutation of that room was accepted since line %d: "
+                                    "was %s now %s; operations in between: %s" % (i, r, j, stored_last[r][0], out, " | ".join(between))))
+                    stored_last[r] = (out, i); changed_by[r] = []
+                continue
+            if (k == "rmut" and out == "ok") or (k == "deladm" and out.startswith("ok")):
+                changed_by.setdefault(a.get("r"), []).append(i)
             if k == "rmut":
                 if out != "ok": continue
                 r, caller, d = int(a["r"]), int(a["k"]), int(a["d"])
